@@ -138,6 +138,27 @@ theorem C04_end_to_end (sys : Sys S F P CS CP) (p : P) (s0 : S)
       π_add := fun _ _ => rfl }
   exact C04_end_to_end_on h (fun _ => rfl) s0 T k hk cs cp0
 
+/-! ### the same under trajectory-relative hypotheses (used by the concrete Yee / CPML instantiations, C04Yee.lean) -/
+
+/-- **C04_vjp_equal_traj** — like `C04_vjp_equal_on`, but every hypothesis is only required at the states of the true
+forward trajectory of this `T`-step run (`HypTraj`). -/
+theorem C04_vjp_equal_traj {sys : Sys S F P CS CP} {p : P} {s0 : S} {T : Nat} {agree : S → S → Prop} {π : CP → CP'}
+    {addP' : CP' → CP' → CP'} (h : HypTraj sys p s0 T agree π addP') (cks : List (Int × F))
+    (hck : CksOK sys p s0 cks) (sT : S) (hT : agree sT (traj sys p s0 T)) (cs : CS) (cp0 : CP) :
+    π (fdtdBwd sys p cks (initCarry T sT cs cp0)).cp = π (gradExact sys p s0 T cs cp0) := by
+  have := loop_invariant_traj h cks hck T ((T : Int) + 2).toNat (initCarry T sT cs cp0) (cs, cp0) le_rfl (by omega)
+    rfl hT rfl rfl
+  exact this.2.2.1
+
+/-- **C04_end_to_end_traj** — slice boundaries, forward pass with checkpoints and reverse loop, every `k ≥ 1`. -/
+theorem C04_end_to_end_traj {sys : Sys S F P CS CP} {p : P} {s0 : S} {T : Nat} {agree : S → S → Prop} {π : CP → CP'}
+    {addP' : CP' → CP' → CP'} (h : HypTraj sys p s0 T agree π addP') (hrefl : agree (traj sys p s0 T) (traj sys p s0 T))
+    (k : Nat) (hk : 1 ≤ k) (cs : CS) (cp0 : CP) :
+    π (gradReversible sys p s0 T k cs cp0) = π (gradExact sys p s0 T cs cp0) := by
+  unfold gradReversible gradReversibleWith
+  simp only [fdtdFwd_spec sys p s0 T k hk]
+  exact C04_vjp_equal_traj h _ (cksOK_zip sys p s0 (checkpointTimes T k)) _ hrefl cs cp0
+
 /-! ### the pinned tree before the fix -/
 
 /-- **asFound_phantom_step** — the as-found loop returns the correct loop's carry pushed through one more body
